@@ -37,3 +37,8 @@ Tactic Notation "mbind" hyp(H) "as" simple_intropattern(a) ident(E) :=
   | bind ?e _ = Ok _ =>
       destruct e as [a| |] eqn:E; cbn [bind] in H; [|discriminate H|discriminate H]
   end.
+
+Ltac split_andb :=
+  repeat match goal with
+         | H : _ && _ = true |- _ => apply andb_prop in H; destruct H
+         end.
